@@ -11,6 +11,7 @@ func propC11(r *Report, tier string) {
 	ruleAPIOpenCheck(r, "K7-api-open-check")
 	ruleAliasOpenCheck(r, "K7-alias-open-check")
 	ruleScorchRootLockTable(r, "K2-rootLock-guarded-by")
+	ruleGuardedByTables(r, "K2-guarded-by-tables")
 	ruleScorchChannelDiscipline(r, "K4-channel-discipline")
 	ruleLoopLifecycle(r, "K5-loop-lifecycle")
 	ruleCancellationPolled(r, "K5-cancellation")
@@ -34,4 +35,62 @@ func ruleScorchRootLockTable(r *Report, rule string) {
 		"index/scorch.(*Scorch).UpdateFields": "index-update open path (OpenMeta): no background loop is running; called once from openIndexUsing before Open",
 	}
 	ruleGuardedBy(r, rule, scorchPkg, table, exempt)
+}
+
+// Guarded-by tables discovered with the INFER-K2 aid (every field listed is accessed
+// under its mutex at all sites today, or at all sites but the named exemptions) and
+// confirmed by reading.
+func ruleGuardedByTables(r *Report, rule string) {
+	type tbl struct {
+		pkg    string
+		fields []guardedField
+		exempt map[string]string
+	}
+	ctor := "constructor: the object is not yet shared"
+	tables := []tbl{
+		{"bleve", []guardedField{
+			{"IndexStats", "indexes", "mutex"},
+			{"indexAliasImpl", "indexes", "mutex"},
+			{"indexAliasImpl", "mapping", "mutex"},
+			{"indexAliasImpl", "open", "mutex"},
+			{"indexImpl", "open", "mutex"},
+		}, map[string]string{
+			"bleve.newIndexUsing":  ctor,
+			"bleve.openIndexUsing": ctor,
+			"bleve.NewIndexAlias":  ctor,
+		}},
+		{"index/scorch", []guardedField{
+			{"IndexSnapshot", "refs", "m"},
+			{"IndexSnapshot", "fieldTFRs", "m2"},
+			{"IndexSnapshot", "fieldCardinality", "m3"},
+			{"cachedDocs", "cache", "m"},
+			{"cachedFieldDocs", "docs", "m"},
+			{"cachedFieldDocs", "size", "m"},
+		}, map[string]string{}},
+		{"index/upsidedown/store/gtreap", []guardedField{
+			{"Iterator", "cancelCh", "m"},
+			{"Iterator", "nextCh", "m"},
+			{"Store", "t", "m"},
+		}, map[string]string{}},
+		{"index/upsidedown/store/metrics", []guardedField{{"Store", "errors", "m"}}, map[string]string{}},
+		{"index/upsidedown/store/moss", []guardedField{
+			{"llSnapshot", "refs", "m"},
+			{"llSnapshot", "llStore", "m"},
+			{"llStore", "refs", "m"},
+			{"mossStoreWrapper", "refs", "m"},
+		}, map[string]string{}},
+		{"index/upsidedown", []guardedField{
+			{"UpsideDownCouch", "docCount", "m"},
+			{"FieldCache", "fieldIndexes", "mutex"},
+			{"FieldCache", "indexFields", "mutex"},
+			{"FieldCache", "lastFieldIndex", "mutex"},
+		}, map[string]string{}},
+		{"registry", []guardedField{
+			{"ConcurrentCache", "data", "mutex"},
+			{"NestedFieldCache", "prefixDepth", "m"},
+		}, map[string]string{}},
+	}
+	for _, t := range tables {
+		ruleGuardedBy(r, rule, t.pkg, t.fields, t.exempt)
+	}
 }
